@@ -15,6 +15,10 @@
 //   OP 8  C05     deleteObject returned true: a fresh instance does not find the object
 //   OP 9  C05     file-system operation VIO_AT of createObject fails: non-NULL only for an object that is on the disk
 //   OP 10 C05     file-system operation VIO_AT of deleteObject fails: true only when the object is gone from the disk
+// Parameters (all concrete per obligation): VIO_AT / NOPS (number of the operation, number of operations of the call: asserted), CRASH_DSIZE
+// (OP 5: bytes of the file in flight that reached the disk), STRICT=1 (OP 9/10: two clauses beyond C05, obligations store_strict_*),
+// PTR_ORDER / VIO_DIR_ORDER (iteration order of std::set<OSObject*> / readdir order, see caps.h and vio_dir_model.h).
+// Not run: destructors of OSToken / ObjectFile (instances are never deleted; File objects on the stack are destroyed = closed as in the real code).
 #include "venv.h"
 #include "caps.h"
 #ifndef OP
@@ -25,6 +29,9 @@
 #endif
 #ifndef NOPS
 #define NOPS 0
+#endif
+#ifndef STRICT
+#define STRICT 0
 #endif
 #ifndef CRASH_DSIZE
 #define CRASH_DSIZE 0
@@ -141,6 +148,36 @@ extern "C" void harness(void)
 	{ ObjSet sp; P->getObjects(sp); ObjectFile* pb = by_name(sp, "b.object"); vassert(sp.size() == 2 && sp.count(oa) == 1 && pb != NULL && pb->isValid() && has_values(pb, ptok, p0, p1)); }
 	vassert(vio_dir.unknownPaths == 0);
 	vreach();
+#elif OP == 11 || OP == 12
+	// s5 (OP 11) replacement: P destroys a and creates b with no call of Q in between (a key roll-over): Q's next search returns exactly b.
+	// s6 (OP 12) two cooperating sites: Q destroys its own object a, then P creates b: Q's next search returns exactly b.
+	// (in both the NUMBER of object files Q expects is unchanged while the SET changed)
+	PUT_OBJECT(VD_AOBJ, VD_ALOCK, ptok, p0, p1);
+	vio_uuid_next = 1;                                                            // the new object gets the name "b"
+	OSToken* P = new OSToken("T", 0077); OSToken* Q = new OSToken("T", 0077);
+	vassert(P->isValid() && Q->isValid());
+	ObjSet sp, sq; P->getObjects(sp); Q->getObjects(sq);
+	vassert(sp.size() == 1 && sq.size() == 1);
+	OSObject* pa = *sp.begin(); OSObject* qa = *sq.begin();
+	vassert(pa->isValid() && qa->isValid());
+#if OP == 11
+	vassert(P->deleteObject(pa));
+#else
+	vassert(Q->deleteObject(qa));
+#endif
+	OSObject* ob = P->createObject();
+	vassert(ob != NULL && ob->setAttribute(A_TOKEN, OSAttribute(tok)) && ob->setAttribute(A_LABEL, OSAttribute(bs2(l0, l1))));
+	{
+		ObjSet s; Q->getObjects(s);                                               // Q's next call
+		ObjectFile* qb = by_name(s, "b.object");
+		vassert(qb != NULL);                                                      // P's committed object is found
+		vassert(s.size() == 1 && by_name(s, "a.object") == NULL);                 // ... and the destroyed one is not
+		vassert(qb != NULL && qb->isValid() && has_values(qb, tok, l0, l1));
+		vassert(!qa->isValid());
+	}
+	{ ObjSet s; P->getObjects(s); vassert(s.size() == 1 && s.count(ob) == 1 && !pa->isValid()); }
+	vassert(vio_dir.unknownPaths == 0);
+	vreach();
 #elif OP == 3 || OP == 4
 	PUT_OBJECT(VD_AOBJ, VD_ALOCK, ptok, p0, p1);
 	OSToken* P = new OSToken("T", 0077); OSToken* Q = new OSToken("T", 0077);
@@ -230,7 +267,7 @@ extern "C" void harness(void)
 	vassert(rb == NULL || (rb->isValid() && has_no_attributes(rb)));
 	{ unsigned char g1[8]; be64(g1, 1);
 	// ... and when its file is in the directory, the file is COMPLETE (what a finished createObject leaves: the generation number), not an empty file
-	vassert(!vio.f[VD_BOBJ].exists || file_is(VD_BOBJ, g1, 8)); }
+	vassert_id(!vio.f[VD_BOBJ].exists || file_is(VD_BOBJ, g1, 8), 16004); }
 	vassert((rb != NULL) == vio.f[VD_BOBJ].exists);
 #else
 	// the object being deleted is gone or intact
@@ -297,7 +334,7 @@ extern "C" void harness(void)
 	PRINT_USED(used);
 	vio_arm_fail = false;
 	vassert(vio.failures == 1);
-	vassert(used <= NOPS);                                                        // the instantiated fault points 0 .. NOPS-1 are all of them
+	vassert(used <= NOPS + (ok ? 0 : 4));                                         // the instantiated fault points 0 .. NOPS-1 are all of them (a failing createObject removes what it created: up to 4 clean-up operations after the fault)
 	OSToken* R = new OSToken("T", 0077);                                          // what a restart finds
 	ObjSet s; R->getObjects(s);
 	ObjectFile* ra = by_name(s, "a.object"); ObjectFile* rb = by_name(s, "b.object");
@@ -309,12 +346,21 @@ extern "C" void harness(void)
 		vassert(rb != NULL && rb->isValid());
 		vassert(o->isValid());
 	}
+#if STRICT
+	// (beyond C05's clause; obligations store_strict_*, in no tier) a createObject() that FAILED leaves no object behind for a restart to find
+	if (!ok) vassert(rb == NULL);
+#endif
 #else
 	if (ok)
 	{	// C05: true only when the object is gone from the disk
 		vassert(!vio.f[VD_BOBJ].exists);
 		vassert(rb == NULL && s.size() == 1);
 	}
+#if STRICT
+	// (beyond C05's clause; obligations store_strict_*, in no tier) a deleteObject() that FAILED and left the object file in place has not killed the
+	// object for the calling process
+	if (!ok && vio.f[VD_BOBJ].exists) vassert(pb->isValid() && has_values(pb, tok, l0, l1));
+#endif
 #endif
 	vassert(vio_dir.unknownPaths == 0);
 	vreach();
